@@ -73,8 +73,10 @@ def rv(v, A=ATOMS):
         return ["map", [[kk, d[kk]] for kk in sorted(d, key=lambda s: s.encode("utf-8"))]]
     if k == "rec":
         return ["rec", rv(v[1], A), rv(v[2], A), rv(v[3], A)]
-    if k == "en":
-        return ["en", v[1], [rv(x, A) for x in v[2]]]
+    if k == "rec2":
+        return ["rec2", rv(v[1], A), rv(v[2], A)]
+    if k in ("en", "en2"):
+        return [k, v[1], [rv(x, A) for x in v[2]]]
     raise ValueError(v)
 
 
@@ -190,10 +192,18 @@ def lit(v):
         if None in xs:
             return None
         return ["Unit", "(One %s)", "(Two %s %s)"][v[1]] % tuple(xs) if xs else "Unit"
+    if k == "rec2":
+        a, b = lit(v[1]), lit(v[2])
+        return None if None in (a, b) else "{ b = %s, a = %s }" % (b, a)
+    if k == "en2":
+        xs = [lit(x) for x in v[2]]
+        if None in xs:
+            return None
+        return ["Dot", "(Rect { height = %s, width = %s })", "(Label { text = %s, id = %s })"][v[1]] % tuple(reversed(xs)) if xs else "Dot"
     raise ValueError(v)
 
 
-LIT_PRELUDE = "let { Rec, En } = import! mtypes\nlet map = import! std.map\nlet { Result, Option } = import! std.types\n"
+LIT_PRELUDE = "let { Rec, En, Rec2, En2 } = import! mtypes\nlet map = import! std.map\nlet { Result, Option } = import! std.types\n"
 
 
 def lit_program(v):
@@ -207,7 +217,7 @@ FN_BODY = {"fn(int,int)": "\\x -> x #Int+ 1", "fn(str,int)": "\\s -> 1", "fn(int
 
 def constructors(t):
     """the type constructors a value of type t is built from (field types of the derived struct / enum included)"""
-    out = [t[0]] + {"rec": ["int", "str", "vec"], "en": ["int", "str", "float"]}.get(t[0], [])
+    out = [t[0]] + {"rec": ["int", "str", "vec"], "en": ["int", "str", "float"], "rec2": ["int", "str"], "en2": ["int", "str"]}.get(t[0], [])
     for x in t[1:]:
         out += constructors(x)
     return out
